@@ -88,7 +88,7 @@ def write_replay(prop, modname, group, exemplar, shard=None):
             payload['repro_py'] = '# could not render: %r' % (e,)
     blob = json.dumps(payload, sort_keys=True, default=repr)
     h = hashlib.sha1(blob.encode()).hexdigest()[:16]
-    d = os.path.join(ROOT, 'replays', prop)
+    d = os.path.join(os.environ.get('VERIF_REPLAY_DIR') or os.path.join(ROOT, 'replays'), prop)
     os.makedirs(d, exist_ok=True)
     path = os.path.join(d, h + '.json')
     with open(path, 'w') as f:
@@ -219,7 +219,7 @@ def run_check(prop, tier, seed):
 
 
 def _dump_groups(prop, total):
-    d = os.path.join(ROOT, 'replays', prop)
+    d = os.path.join(os.environ.get('VERIF_REPLAY_DIR') or os.path.join(ROOT, 'replays'), prop)
     os.makedirs(d, exist_ok=True)
     with open(os.path.join(d, '_groups.json'), 'w') as f:
         json.dump([{'kind': g['kind'], 'features': g['features'], 'count': g['count'],
@@ -251,7 +251,7 @@ def _write_evidence(mod, prop, tier, seed, total, t0, violations, known_hit, har
         'coverage': cov, 'assumptions': list(getattr(mod, 'ASSUMPTIONS', [])),
         'wall_s': round(time.time() - t0, 2), 'violations': len(violations),
     }
-    d = os.path.join(ROOT, 'evidence')
+    d = os.environ.get('VERIF_EVIDENCE_DIR') or os.path.join(ROOT, 'evidence')   # redirected only by bin/seedtest
     os.makedirs(d, exist_ok=True)
     tmp = os.path.join(d, prop + '.json.tmp')
     with open(tmp, 'w') as f:
